@@ -339,10 +339,13 @@ def src_names(fn, op):
     for s in P.origins(fn, op):
         if s["k"] == "field":
             names.add("." + s["f"])
-        elif s["k"] == "const" and "v" in s:
-            names.add("#%d" % s["v"])
+        elif s["k"] == "const":
+            if "v" in s:
+                names.add("#%d" % s["v"])
             if s.get("named"):
                 names.add("#" + s["named"].rsplit("::", 1)[-1])
+            if "str" in s:
+                names.add("#%r" % s["str"])
         elif s["k"] == "call":
             names.add(s["callee"].rsplit("::", 1)[-1] + "()")
         elif s["k"] == "param":
